@@ -24,7 +24,7 @@ RULE = (
     "all) and one illegal one. Environment answers per primitive call: refine {fresh, empty, ValueError, leftover}, "
     "relax {fresh, empty, ValueError, drop-dirty-terms}, simplify {same, ValueError, drop first, drop last}, "
     "refines {True, False}; each answer records the Horn fact its documented contract promises. Deviation bound "
-    "(non-default answers): quick n<=2: 2, n=3: 1 (1/%d slice); thorough n<=2: complete trees, n=3: 2, n=4: 1. "
+    "(non-default answers): quick n<=2: 2, n=3: 1 (1/%d slice); thorough n<=2: complete trees, n=3: 3, n=4: 2. "
     "states = distinct (case, answer-prefix) nodes, transitions = primitive answers taken. Non-trivial execution = "
     "returned a contract after at least one primitive call; distinct by construction (distinct answer sequences)."
     % NSLICES
@@ -116,7 +116,7 @@ def _cases_for(n):
 
 def bound_for(tier, n):
     if tier == "thorough":
-        return {0: None, 1: None, 2: None, 3: 2, 4: 1}[n]
+        return {0: None, 1: None, 2: None, 3: 3, 4: 2}[n]
     return {0: None, 1: None, 2: 2, 3: 1, 4: 0}[n]
 
 
